@@ -167,6 +167,21 @@ def run(ctx, pid):
     f_dump_f = pool.submit(ctx.tlc, SPEC, "Dump_Fair_q.cfg" if quick else "Dump_Fair.cfg", module="MC_Fair", timeout=1800,
                            dump_dot=True)
 
+    f_seg = pool.submit(ctx.tlc_must_hold, SPEC, "MC_Seg_q.cfg" if quick else "MC_Seg_t.cfg", module="MC_Seg", timeout=3400,
+                        workers=2 if quick else 10)
+    f_seg_asis = None if quick else [
+        pool.submit(ctx.tlc, SPEC, "MC_Seg_asis.cfg", module="MC_Seg", timeout=1800, expect_fail=True, workers=6),
+        pool.submit(ctx.tlc, SPEC, "MC_Seg_clearnext.cfg", module="MC_Seg", timeout=3000, expect_fail=True, workers=6)]
+
+    # ------------------------------------------------------------------ 1b. Seg.tla counterexample schedules on the real mailbox
+    def witness(name):
+        t = ctx.tmp("%s.ndjson" % name)
+        p = ctx.run([exe, name, "3" if quick else "20", t], timeout=900)
+        rs = json.loads(p.stdout.strip().splitlines()[-1])
+        return name, rs, judge(ctx, lock, "fifo-" + name, "fifo", 0, t, timeout=3000)
+
+    wfuts = [pool.submit(witness, n) for n in ("segrace", "segrace2")]
+
     # ------------------------------------------------------------------ 2. free-running histories, all kinds
     nh = 100 if quick else 1200
 
@@ -222,6 +237,17 @@ def run(ctx, pid):
     # ------------------------------------------------------------------ collect
     f_mpsc.result()
     f_fair.result()
+    f_seg.result()
+    if f_seg_asis:
+        for f, inv in zip(f_seg_asis, (("NoLoss", "NotWedged"), ("NotWedged", "NoLoss"))):
+            if f.result().violated not in inv:
+                raise vlib.Infra("Seg.tla with the pre-fix Defects no longer violates NoLoss/NotWedged (spec changed?)")
+    for fut in wfuts:
+        name, rs, j = fut.result()
+        ctx.log("witness %-8s: %d rounds, messages lost in %d | histories %d strict %d relaxed %s"
+                % (name, rs["rounds"], rs["lost"], j.n, j.strict, dict(j.relaxed)))
+        samples.append({"witness": name, "result": rs})
+        account("seg", j, "replay of the Seg.tla counterexample schedule '%s' on the real segmented mailbox" % name)
     asis = f_mpsc_asis.result()
     if ctx.is_known("TransientEmpty:mpsc") and asis.violated != "NeverEmptyWhileCompleted":
         raise vlib.Infra("stale finding: Mpsc.tla with Defects={TransientEmpty} no longer violates NeverEmptyWhileCompleted")
